@@ -1,5 +1,6 @@
 import SradModel.Model.Eon
 import SradModel.Drv.Util
+import Std.Data.HashSet
 
 /-
 Trace validation for the edge-node model (T-trace): the harness sends each stimulus together with
@@ -56,39 +57,53 @@ def matchPrefix : List Obs → List String → Option (List String)
   | o :: os, t :: ts => if showObs o = t then matchPrefix os ts else none
   | _ :: _, [] => none
 
-structure Budget where
-  left : Nat
+/-- All quiescent states the model can be in after emitting exactly `toks` from `s0`:
+exhaustive exploration of the interleavings of the model's tasks (worklist with a visited set
+over (state, number of tokens left)). Returns the end states and whether the budget ran out. -/
+partial def exploreAll (budget : Nat) (s0 : St) (toks0 : List String) : List St × Bool :=
+  let rec go (work : List (St × List String)) (visited : Std.HashSet (St × Nat))
+      (ends : List St) : List St × Bool :=
+    if visited.size > budget then (ends, true)
+    else
+      match work with
+      | [] => (ends, false)
+      | (s, toks) :: rest =>
+        if visited.contains (s, toks.length) then go rest visited ends
+        else
+          let visited := visited.insert (s, toks.length)
+          let dec := nextDec toks
+          let cands : List (St × List Obs) := (tasks s).flatMap fun t => step s t dec
+          if toks.isEmpty && cands.isEmpty then
+            go rest visited (if ends.contains s then ends else s :: ends)
+          else
+            let next := cands.filterMap fun c =>
+              match matchPrefix c.2 toks with
+              | some r => some (c.1, r)
+              | none => none
+            go (next ++ rest) visited ends
+  go [(s0, toks0)] {} []
 
-/-- depth-first search for a schedule emitting exactly `toks` and ending quiescent.
-Emitting steps that match are tried before silent ones. -/
-def searchSched : Nat → Nat → St → List String → Option St × Nat
-  | 0, b, _, _ => (none, b)
-  | _, 0, _, _ => (none, 0)
-  | fuel + 1, budget + 1, s, toks =>
+/-- diagnostic for a rejected line: follow matching steps greedily (first candidate), silent
+steps otherwise, and report how many tokens were matched and what the model could emit there -/
+def greedyDiag : Nat → St → List String → Nat → Nat × List String
+  | 0, _, toks, k => (k, toks.take 1)
+  | fuel + 1, s, toks, k =>
     let dec := nextDec toks
     let cands : List (St × List Obs) := (tasks s).flatMap fun t => step s t dec
-    let emitting := cands.filter fun c => !c.2.isEmpty
-    let silent := cands.filter fun c => c.2.isEmpty
-    if toks.isEmpty && cands.isEmpty then (some s, budget)
-    else
-      let tryList (l : List (St × List Obs)) (b : Nat) : Option St × Nat :=
-        l.foldl (fun (acc : Option St × Nat) c =>
-          match acc with
-          | (some r, b) => (some r, b)
-          | (none, b) =>
-            match matchPrefix c.2 toks with
-            | some rest => searchSched fuel b c.1 rest
-            | none => (none, b)) (none, b)
-      match tryList emitting budget with
-      | (some r, b) => (some r, b)
-      | (none, b) => tryList silent b
+    let matching := cands.filter fun c => !c.2.isEmpty && (matchPrefix c.2 toks).isSome
+    match matching with
+    | c :: _ => greedyDiag fuel c.1 (toks.drop c.2.length) (k + c.2.length)
+    | [] =>
+      match cands.filter (fun c => c.2.isEmpty) with
+      | c :: _ => greedyDiag fuel c.1 toks k
+      | [] => (k, ((cands.filterMap fun c => c.2.head?).map showObs).eraseDups)
 
 def enabledObs (s : St) : List String :=
   ((tasks s).flatMap fun t => (step s t .acc).flatMap fun c => c.2.take 1 |>.map showObs).eraseDups
 
 structure EonD where
-  st : St := Eon.init 0
-  users : Nat := 0        -- number of user calls issued so far
+  sts : List St := [Eon.init 0]    -- every model state consistent with the observations so far
+  users : Nat := 0                 -- number of user calls issued so far
 
 def parsePubMode : String → Option Bool
   | "try" => some true | "trysort" => some true | "blk" => some false | "blksort" => some false | _ => none
@@ -141,41 +156,36 @@ def stepEon (d : EonD) (ws : List String) : EonD × String :=
     | [] => []
     | ["-"] => []
     | l => (joinWith " " l).splitOn ";" |>.filter (fun t => t ≠ "" && !isHarnessTok t)
-  let run (s : St) (d : EonD) : EonD × String :=
-    match searchSched 4000 200000 s toks with
-    | (some s', _) => ({ d with st := s' }, "ok")
-    | (none, b) =>
-      ({ d with st := s },
-        (if b = 0 then "budget-exhausted" else "rejected") ++ " model-enabled=[" ++ joinWith "," (enabledObs s) ++ "]")
+  -- run the line from every state still possible; keep the union of the reachable end states
+  let run (starts : List St) (d : EonD) : EonD × String :=
+    let res := starts.map fun s => exploreAll 60000 s toks
+    let ends := (res.flatMap (·.1)).foldl (fun acc s => if acc.contains s then acc else s :: acc) []
+    let exhausted := res.any (·.2)
+    if !ends.isEmpty then ({ d with sts := (ends.take 64).map fun s => { s with wall := s.wall + 1 } }, "ok")
+    else
+      let s := starts.headD (Eon.init 0)
+      let (k, en) := greedyDiag 400 s toks 0
+      ({ d with sts := starts.map fun s => { s with wall := s.wall + 1 } },
+        (if exhausted then "budget-exhausted" else "rejected") ++
+          s!" states={starts.length} greedy-matched={k}/{toks.length} then-model-enabled=[" ++ joinWith "," en ++ "]")
   -- the harness answers `U:err:NoDevice` / `U:err:Duplicate` / … itself when it has no handle for
   -- the device (nothing of srad is called then)
   let harnessRefused := (match obsW with
     | [] => false
     | l => ((joinWith " " l).splitOn ";").any (fun t => t.startsWith "U:err:"))
-  let tick (s : St) : St := { s with wall := s.wall + 1 }        -- every line costs 1 ms (barrier)
   match req with
   | "new" :: rest =>
     match (rest.findSome? fun w => if w.startsWith "cd=" then (w.drop 3).toString.toNat? else none) with
     | some cd =>
       let s0 : St := { Eon.init cd with wall := 1000000 }
-      let (d', o) := run s0 { st := s0, users := 0 }
-      ({ d' with st := tick d'.st }, o)
+      run [s0] { sts := [s0], users := 0 }
     | none => (d, "bad-op")
   | "stim" :: rest =>
-    if harnessRefused then
-      let (d', o) := run d.st d
-      ({ d' with st := tick d'.st }, o)
+    if harnessRefused then run d.sts d
     else
       match parseStim d rest with
-      | some (stim, d') =>
-        let (s, _) := applyStim d.st stim
-        let (d'', o) := run s d'
-        ({ d'' with st := tick d''.st }, o)
-      | none =>
-        if rest.head? = some "rule" then
-          let (d', o) := run d.st d
-          ({ d' with st := tick d'.st }, o)
-        else (d, "bad-op")
+      | some (stim, d') => run (d.sts.map fun s => (applyStim s stim).1) d'
+      | none => if rest.head? = some "rule" then run d.sts d else (d, "bad-op")
   | _ => (d, "bad-op")
 
 end Srad.Drv
